@@ -32,6 +32,7 @@ EXPLANATION = (
     "map of that group inside the same per-match iteration (old name "
     "removed, member removed, new name added). Nothing is cached across "
     "calls. Also: FASTA entries are cut at a '>' in the first column only (the split expression is evaluated, as a term, on four small texts); has_decoys is only ever raised inside the loop. "
+    "Also: the new-group / rename table includes worlds in which another, not yet grouped, protein contains the protein. "
     "NOT decided: maximality for concrete incidence structures.")
 TECHNIQUE = ("structural path/loop analysis + guard truth table + "
              "mutation-while-iterating scan + set-provenance taint (ORDER) "
@@ -182,13 +183,22 @@ def _group(ctx, f):
             and e.args == (M,)]
     bad = []
     try:
-        for g, m in ((False, False), (True, False), (True, True)):
-            def atoms(t, g=g, m=m):
+        # worlds: (groups exist, a group contains the protein, another
+        # protein that is not a group yet contains it too).  The unfiltered
+        # intersection always holds the protein itself.
+        XS = CAND[3][0][1] if ok else None
+        for g, m, q in ((False, False, False), (True, False, False),
+                        (True, True, False), (False, False, True),
+                        (True, False, True), (True, True, True)):
+            def atoms(t, g=g, m=m, q=q):
                 # containers, so that truthiness and len() both work
                 if is_gr(t):
                     return {"G": 1} if g else {}
                 if t == MATCHES:
                     return ["G"] if m else []
+                if XS is not None and t == XS:
+                    return {"P"} | ({"G"} if m else set()) | (
+                        {"Q"} if q else set())
                 raise KeyError(t)
             made = [e for e in creates if all(
                 bool(ev_term(t, atoms)) == o for t, o in lconds(e.stmt))]
@@ -197,6 +207,7 @@ def _group(ctx, f):
             want_new = (not g) or (not m)
             if (len(made) == 1) != want_new or ren != (not want_new):
                 bad.append({"groups exist": g, "candidates": m,
+                            "other containing proteins": q,
                             "new group": len(made), "renames": ren})
     except (EvUnknown, KeyError) as e:
         raise AnalysisError(
